@@ -23,7 +23,7 @@
 (***************************************************************************)
 EXTENDS MtailGen
 
-NClasses == 12
+NClasses == 13
 
 -----------------------------------------------------------------------------
 (* blocks in pre-order *)
@@ -133,6 +133,14 @@ ZeroDivSs(ss) ==
     \/ ZeroDivSs(Tail(ss))
 
 AllSs(P) == P.pre \o P.body \o FlattenSeq([i \in 1..Len(P.decos) |-> P.decos[i].body])
+RECURSIVE NestedDecls(_)
+NestedDecls(ss) ==
+  IF ss = <<>> THEN {}
+  ELSE LET st == Head(ss) IN
+       (CASE st.n = "decl" -> {st.d.name}
+          [] st.n = "cond" -> NestedDecls(st.t) \cup NestedDecls(st.e)
+          [] st.n \in {"otherwise", "deco"} -> NestedDecls(st.t)
+          [] OTHER -> {}) \cup NestedDecls(Tail(ss))
 DeclNames(P) == {P.decls[i].name : i \in 1..Len(P.decls)}
 WellFormed(P) ==
   LET used == UsedSs(AllSs(P))
@@ -147,6 +155,7 @@ WellFormed(P) ==
      /\ AritySs(P, AllSs(P))                                                    \* 5 index arity
      /\ \A i, j \in 1..Len(P.decls) : i # j => P.decls[i].name # P.decls[j].name \* 6 no redeclaration
      /\ DeclNames(P) \subseteq used                                             \* 7 every declaration used
+     /\ NestedDecls(AllSs(P)) \subseteq used                                    \*   ... wherever it is declared
      /\ \A i \in 1..Len(P.pats) : ~P.pats[i].bad /\ ~P.pats[i].long             \* 8 9 regex valid, within the limit
      /\ ~ZeroDivSs(AllSs(P))                                                    \* 10 no int / or % by literal 0
 
@@ -212,6 +221,10 @@ Mutate(P0, class, s) ==
          [prog |-> [P EXCEPT !.pats[(k % Len(P.pats)) + 1].long = TRUE, !.body = @ \o << [n |-> "cond", he |-> FALSE, e |-> <<>>,
                         c |-> [n |-> "pat", p |-> (k % Len(P.pats)) + 1], t |-> << [n |-> "stop"] >>] >>],
           class |-> "regular expression over the length limit", what |-> "pattern padded beyond the limit"]
+    [] class = 12 ->  \* an unused declaration INSIDE a block (conditional, else, decorated block or decorator body)
+         [prog |-> Anywhere(P, k, [n |-> "decl", d |-> [name |-> "unused2", kind |-> IF Coin(s1, 1, 2) THEN "counter" ELSE "gauge",
+                                                        keys |-> IF Coin(Rnd(s1), 1, 2) THEN <<>> ELSE <<"k">>, ty |-> "int", hidden |-> FALSE]]),
+          class |-> "unused declaration", what |-> "declaration inside a block, never referenced"]
     [] OTHER ->       \* integer division / modulus by the literal 0
          [prog |-> Anywhere(Ensure(P, {"gi"}), k, [n |-> "expr", e |-> [n |-> "assign", m |-> "gi", idx |-> <<>>,
                         r |-> Bin(IF Coin(s1, 1, 2) THEN "/" ELSE "%", [n |-> "var", m |-> "gi", idx |-> <<>>], [n |-> "int", v |-> 0])]]),
